@@ -40,7 +40,7 @@ class C08:
     assumptions = ["CPython's registry comment block is ground truth for release -> magic",
                    "rows appear in chronological order inside the registry"]
     exhaustive = {"quick": True, "thorough": True}
-    budgets = {"quick": {"shards": 8, "examples": 150, "seconds": 60},
+    budgets = {"quick": {"shards": 8, "examples": 1500, "seconds": 60},
                "thorough": {"shards": 16, "examples": 4000, "seconds": 300}}
     minimise = False
 
